@@ -8,7 +8,10 @@
 (*   Derive(kind)      a derived representation is built from the current  *)
 (*                     dictionary and kept in a second slot (a snapshot:   *)
 (*                     later assignments to either do not touch the other);*)
-(*   SetDer(name, M)   assignment to the derived representation.           *)
+(*   SetDer(name, M)   assignment to the derived representation;           *)
+(*   Eval              evaluation of the word battery on both objects: a     *)
+(*                     stuttering step, enabled everywhere, whose result is  *)
+(*                     the table of the current state.                       *)
 (* TLC checks on every reachable state that both dictionaries are          *)
 (* inverse-coherent and satisfy the homomorphism / free-reduction laws,    *)
 (* prints per state the table of specified word images (EmitObs) and per   *)
@@ -61,11 +64,22 @@ SetDer(name, M) ==
   /\ UNCHANGED gens
   /\ last' = [a |-> "setder", name |-> name, M |-> M]
 
-Next == /\ steps < MaxSteps
-        /\ steps' = steps + 1
-        /\ \/ \E name \in Names, M \in Universe : SetGen(name, M)
-           \/ \E k \in Kinds : Derive(k)
-           \/ \E name \in DerNames, M \in DerUniverse : SetDer(name, M)
+\* rep[w] / rep.elements(ws) / derived[w] for the whole word battery of the current state (all words up
+\* to WordLen over every stored letter, inverse letters included): a query.  It leaves both
+\* dictionaries unchanged and returns Table(gens), Table(der.gens) *of the state it is issued in* --
+\* whatever was evaluated or assigned before.  It is enabled in every state with a generator and is
+\* interleaved everywhere: between any two assignments, after Derive, before and after SetDer.
+Eval ==
+  /\ DOMAIN gens # {}
+  /\ UNCHANGED <<gens, der, steps>>
+  /\ last' = [a |-> "eval"]
+
+Next == \/ /\ steps < MaxSteps
+           /\ steps' = steps + 1
+           /\ \/ \E name \in Names, M \in Universe : SetGen(name, M)
+              \/ \E k \in Kinds : Derive(k)
+              \/ \E name \in DerNames, M \in DerUniverse : SetDer(name, M)
+        \/ Eval
 
 (***************************************************************************)
 (* Invariants                                                              *)
